@@ -11,9 +11,9 @@ extern "C" {
 #include "a/hash.h"
 }
 
-enum { L_W8, L_W16, L_W32, L_W64, L_MSB, L_LSB, L_POLY_TOPBIT, L_INIT_NONZERO, L_SPLIT3, L_LONG, L_HASH_BKDR, L_HASH_SDBM, L_HIGH_BYTE, L_NUL_INSIDE, L_PUBLISHED_POLY };
+enum { L_W8, L_W16, L_W32, L_W64, L_MSB, L_LSB, L_POLY_TOPBIT, L_INIT_NONZERO, L_SPLIT3, L_LONG, L_HASH_BKDR, L_HASH_SDBM, L_HIGH_BYTE, L_NUL_INSIDE, L_PUBLISHED_POLY, L_WORD_RECORDS };
 static char const *const labels[] = {"crc8", "crc16", "crc32", "crc64", "msb_first", "lsb_first", "polynomial_top_bit_set", "initial_value_nonzero", "three_way_split",
-                                     "message_ge_64_bytes", "hash_bkdr", "hash_sdbm", "byte_ge_0x80", "nul_inside_message", "published_polynomial", nullptr};
+                                     "message_ge_64_bytes", "hash_bkdr", "hash_sdbm", "byte_ge_0x80", "nul_inside_message", "published_polynomial", "message_of_machine_word_records", nullptr};
 static char const *const metrics[] = {nullptr};
 static uint8_t const dict[] = {0x31, 0x39, 0x07, 0x1D, 0xB7, 0x21, 0x10};
 static vp_info const info = {"C17", "crc_hash", "", labels, metrics, 360, dict, sizeof(dict)};
@@ -119,7 +119,41 @@ static std::vector<uint8_t> gen_msg(Tape &t, Ctx &cx)
     default: n = t.u8() % 40; break;
     }
     std::vector<uint8_t> m(n);
-    uint8_t mode = t.u8() % 4;
+    uint8_t mode = t.u8() % 5;
+    if (mode == 4)
+    {
+        // records of machine words (2, 4 or 8 bytes, either byte order) from a boundary pool, each possibly derived from its
+        // predecessor (copy, negation, complement, +1), with runs of zero words: the shape of binary data rather than of text
+        m.clear();
+        unsigned wb = 2u << (t.u8() % 3);
+        bool be = t.coin();
+        unsigned nw = n ? unsigned(1 + n / wb) : 0;
+        if (nw > 40) { nw = 40; }
+        uint64_t prev = 0;
+        static uint64_t const pool[] = {0, 1, 2, 0x7F, 0x80, 0xFF, 0x100, 0x7FFF, 0x8000, 0xFFFF, 0x7FFFFFFF, 0x80000000ull, 0xFFFFFFFFull, 0x8000000000000000ull, 0x7FFFFFFFFFFFFFFFull, ~uint64_t(0)};
+        for (unsigned i = 0; i < nw; ++i)
+        {
+            uint64_t v;
+            uint8_t c = t.u8();
+            switch (c % 8)
+            {
+            case 0: case 1: v = 0; break;
+            case 2: v = pool[(c / 8) % 16]; break;
+            case 3: v = prev; break;
+            case 4: v = uint64_t(0) - prev; break;
+            case 5: v = ~prev; break;
+            case 6: v = prev + 1; break;
+            default: v = t.u64(); break;
+            }
+            prev = v;
+            for (unsigned b = 0; b < wb; ++b) { m.push_back(uint8_t(v >> (8 * (be ? wb - 1 - b : b)))); }
+        }
+        if (t.u8() % 4 == 0 && !m.empty()) { m.resize(m.size() - t.u8() % wb); } // not necessarily a whole number of words
+        cx.label(L_WORD_RECORDS);
+        for (uint8_t c : m) { if (c >= 0x80) { cx.label(L_HIGH_BYTE); } }
+        if (m.size() >= 64) { cx.label(L_LONG); }
+        return m;
+    }
     for (size_t i = 0; i < n; ++i)
     {
         uint8_t c;
